@@ -20,8 +20,8 @@ CLAIMED = {
             "environment actors other than requests (a user cleaning the cache) are not modelled.",
             "DESIGN.md §4 C15, §2.5, Appendix A"),
     "C01": ("oracle-engine", "bounded-exhaustive exploration of a deviation graph of form configurations against a reference model (explicit-state BFS, radius-bounded)",
-            "Every configuration within Hamming radius d (1 quick, 2 thorough) of the dx baseline of each of the 6 cell types over 12 dimensions (geometry class, arity, element, operator, "
-            "factor, wrapping, quadrature, subdomains, scalar type) is compiled through the public JIT entry point and every kernel is compared with an independent reference-space "
+            "Every configuration within Hamming radius d (1 quick, 2 thorough) of the dx baseline of each of the 6 cell types over 13 dimensions (geometry class, arity, element, operator, "
+            "factor, wrapping, quadrature, subdomains, scalar type, one/two meshes) is compiled through the public JIT entry point and every kernel is compared with an independent reference-space "
             "evaluator R on 3 geometry instances; R is anchored on closed-form monomial integrals on every run.",
             "Continuous inputs come from a finite alphabet (geometry instances x one seeded data draw); program space = the grammar of DESIGN §3; R trusts UFL preprocessing, core basix and numpy.",
             "DESIGN.md §4 C01, §2.2, §3"),
@@ -33,7 +33,7 @@ CLAIMED = {
     "C03": ("numbering-explorer", "exhaustive enumeration of all pairs of local numberings x all physically aligning permutation-code pairs on the real kernels",
             "For two affine cells sharing a facet ALL pairs of valid local numberings (4/36/64/576/2304) are enumerated; the harness finds geometrically every code pair that aligns the facet "
             "points and each kernel call must reproduce the identity-numbering value and an independent physical-space quadrature; flag-false kernels must be code-independent on all facet and code pairs.",
-            "Affine cells, Lagrange/DG elements of degree <= 2 (no DOF transformations); polynomial integrands so the rules are exact; permutation convention as written in mc/oracle.py.",
+            "Affine cells, Lagrange/DG elements of degree <= 2 (no DOF transformations); polynomial integrands (on tensor cells incl. the bilinear terms Q1 holds) so the rules are exact; default, GLL and Gauss-Jacobi facet rules; permutation convention as written in mc/oracle.py.",
             "DESIGN.md §4 C03"),
     "C05": ("oracle-engine", "exhaustive enumeration of coefficient-usage patterns over integrals with NaN-poisoning of disabled coefficients, against a reference model",
             "All assignments of non-empty coefficient-subset patterns to 1-3 integrals of different type/id and to 2-3 integrals with different quadrature rules inside one (type, id) group (plus derivative/cancellation/constant-usage forms) are compiled; per kernel every "
@@ -64,7 +64,7 @@ CLAIMED = {
             "DESIGN.md §4 C09"),
     "C10": ("oracle-engine", "bounded-exhaustive metamorphic exploration: corpus x option settings, default-option kernel as oracle",
             "For every configuration of the C10 corpus the form is compiled with default options and with sum_factorization / part=diagonal / a table-tolerance grid, and the outputs are compared "
-            "call by call on identical inputs (every entity, code pairs as C02 quick): equality to rounding, diag(full), |delta| <= 100(rtol+atol); options applied where they do not apply must be no-ops.",
+            "call by call on identical inputs (every entity, code pairs as C02 quick): equality to rounding, diag(full) - incl. every vector/mixed element under operators that couple its components -, |delta| <= 100(rtol+atol); options applied where they do not apply must be no-ops.",
             "Tensor rule verified identical to the default rule for degrees 0..30; default-option kernels themselves are checked against R in C01/C02.",
             "DESIGN.md §4 C10"),
     "C06": ("oracle-engine", "exhaustive enumeration of all integral sequences up to a length over a (type, id-set, rule) alphabet against a dispatch model",
@@ -81,7 +81,7 @@ CLAIMED = {
             "Affine-image truth uses basix rules of higher degree that are anchored on closed forms in the same run; quick tier limits 3D degrees (stated in evidence).",
             "DESIGN.md §4 C11"),
     "C16": ("parsers", "exhaustive enumeration of all AST trees of depth <= 2 plus all depth-3 operator chains, formatted and parsed back (pycparser / Python ast)",
-            "Every expression tree of depth <= 2 over all node kinds in every operand position and every depth-3 chain is formatted by the C formatter (float64, complex128) and the numba "
+            "Every expression tree of depth <= 2 over all node kinds (n-ary nodes with 1-3 operands) in every operand position and every depth-3 chain is formatted by the C formatter (float64, complex128) and the numba "
             "formatter, parsed back under the target grammar and compared structurally with the L tree; statement kinds and whole captured kernel bodies likewise; a literal grid must read back within 1 ulp.",
             "pycparser stands for the C grammar and ast.parse for Python; function names need only be the table entry or the bare name.",
             "DESIGN.md §4 C16, §2.4"),
@@ -113,9 +113,10 @@ CLAIMED = {
             "(degrees 0..30 x schemes + vertex) must have distinct ids, colliding pairs and a covering sample are compiled.",
             "Supported fragment = grammar of DESIGN §3 minus mc/data/c19_rejections.json; valid C = gcc through the real cffi build.",
             "DESIGN.md §4 C19"),
-    "C20": ("cli-runner", "exhaustive enumeration of option-source combinations (3^3 per option) and of command-line variants per UFL file",
+    "C20": ("cli-runner", "exhaustive enumeration of option-source combinations (3^3 per option), of command-line variants per UFL file and of in-process invocation sequences up to a length",
             "All demo files and generated files x command-line variants: expected files, stand-alone gcc -std=c17, header externs vs nm, aliases resolved through cffi ABI mode, every kernel vs the JIT "
-            "kernel, name maps vs the UFL file, numba output parses; every option in all 27 combinations of {absent, v1, v2} over {command line, pwd json, user json} in fresh processes must obey CLI > pwd > user > default.",
+            "kernel, name maps vs the UFL file, numba output parses; every option in all 27 combinations of {absent, v1, v2} over {command line, pwd json, user json} in fresh processes must obey CLI > pwd > user > default; "
+            "all sequences of <= 2 (thorough: 3) command-line invocations over a 7-letter alphabet inside ONE interpreter must write what each invocation writes alone.",
             "Kernels compared with the JIT path on random data (no reference model here); effective options read from the generated file's option dump.",
             "DESIGN.md §4 C20"),
 }
